@@ -9,7 +9,7 @@ TESTS.append(
     # race=True: built with the Go race detector (a data race between two concurrent calls fails the test).
     T("vfsdir", "TestC14DirectoryConcurrentStress",
       {"checks": 1000, "shards": 3, "timeout": 600},
-      {"checks": 20000, "shards": 4, "timeout": 2400},
+      {"checks": 10000, "shards": 4, "timeout": 2400},
       race=True))
 ASSUMPTIONS.append("C14(c): concurrent stress uses the Go scheduler's interleavings (not generated, not replayable bit-for-bit); only a confirmed mutex cycle or leaked lock (no operation completed between two goroutine dumps 2 s apart and every unfinished thread parked in sync.Mutex/RWMutex) is a violation; other time-outs, in particular threads that are still runnable (a livelock cannot be told from slow progress without owning the schedule), are inconclusive")
 ASSUMPTIONS.append("C14(c): the stress threads play a kernel: the fixed directories a/b/c are moved to another parent only under a rename mutex and after an ancestor check (Linux s_vfs_rename_mutex), they keep their names, and no other directory is ever a rename target directory, so no call can move a directory into its own subtree; InstallHooks is not called concurrently with other calls (callers install hooks before a directory is exposed)")
